@@ -518,8 +518,8 @@ def r16j(ctx):
 
 
 def run(ctx):
+    ctx.guard(r16k)         # pointed rules first (see Ctx.guard)
     ctx.guard(r16j)
-    ctx.guard(r16k)
     ctx.guard(r16i)
     ctx.guard(r16a)
     ctx.guard(r16b)
